@@ -67,11 +67,15 @@ structure Q where
   started : Nat := 0                  -- handler goroutines started so far (ordinals 0, 1, …)
   pending : List (Nat × Slice) := []  -- handlers that have not yet read their frames: ordinal, the slice they were given
   handled : List (Nat × List Ev) := [] -- ordinal, the frames the handler saw — in the order the handlers ran
+  stopped : Bool := false             -- `stop()` has synchronised with the flusher goroutine: it has returned
 
 inductive QAct
   | debounce (e : Ev)   -- a node event frame arrives (Session.handleEvent → nodeEvents.debounce)
   | fire                -- the flusher takes the expired timer's value and flushes
   | run (k : Nat)       -- handler goroutine `k` gets the CPU and reads its frames
+  | stop                -- `e.stop()` (Session.Close): `e.quit <- struct{}{}` is received by the flusher IN ITS SELECT — a
+                        -- flusher that has taken the timer's value finishes that flush first (it is a `fire` before this
+                        -- step) —, the flusher returns; frames still buffered, or debounced later, are never flushed
 deriving DecidableEq, Repr
 
 /-- what `flush` leaves in `e.events`: the code that exists allocates (`reuse = false`); `reuse = true` is the
@@ -85,8 +89,10 @@ def qstepWith (reuse : Bool) (grow : Nat → Nat) (q : Q) : QAct → Q
       let (m, s) := q.mem.append grow q.events e
       { q with mem := m, events := s, timer := true }
     else { q with timer := true }
+  | .stop => { q with stopped := true }
   | .fire =>
-    if q.events.len = 0 then { q with timer := false }
+    if q.stopped then { q with timer := false }      -- the timer expires, nobody selects on its channel
+    else if q.events.len = 0 then { q with timer := false }
     else
       let (m, s) := flushBuffer reuse q.mem q.events
       { q with mem := m, events := s, timer := false, started := q.started + 1,
@@ -112,12 +118,15 @@ structure Spec where
   pending : List (Nat × List Ev) := []
   handled : List (Nat × List Ev) := []
   flushed : List (List Ev) := []      -- ghost: the batch of every flush, by ordinal
+  stopped : Bool := false
 deriving DecidableEq, Repr
 
 def sstep (s : Spec) : QAct → Spec
   | .debounce e => { s with buf := debounceAdd s.buf e }
+  | .stop => { s with stopped := true }
   | .fire =>
-    if s.buf.length = 0 then s
+    if s.stopped then s
+    else if s.buf.length = 0 then s
     else { s with buf := [], started := s.started + 1, pending := s.pending ++ [(s.started, s.buf)],
                   flushed := s.flushed ++ [s.buf] }
   | .run k =>
@@ -128,14 +137,15 @@ def sstep (s : Spec) : QAct → Spec
 def srun (s : Spec) (as : List QAct) : Spec := as.foldl sstep s
 
 /-- the frames the debouncer accepts: the first `eventBufferSize` of every window (KF-C16-7: the later ones are
-dropped); `n` = frames accepted in the current window -/
-def acceptedFrom : Nat → List QAct → List Ev
-  | _, [] => []
-  | n, .debounce e :: t => if n < eventBufferSize then e :: acceptedFrom (n + 1) t else acceptedFrom n t
-  | _, .fire :: t => acceptedFrom 0 t
-  | n, .run _ :: t => acceptedFrom n t
+dropped); `n` = frames accepted in the current window; after `stop` no flush ends the window any more -/
+def acceptedFrom : Bool → Nat → List QAct → List Ev
+  | _, _, [] => []
+  | st, n, .debounce e :: t => if n < eventBufferSize then e :: acceptedFrom st (n + 1) t else acceptedFrom st n t
+  | st, n, .fire :: t => if st then acceptedFrom st n t else acceptedFrom st 0 t
+  | st, n, .run _ :: t => acceptedFrom st n t
+  | _, n, .stop :: t => acceptedFrom true n t
 
-def accepted (as : List QAct) : List Ev := acceptedFrom 0 as
+def accepted (as : List QAct) : List Ev := acceptedFrom false 0 as
 
 /-- the oracle of the unit tier: the handlers that have run saw exactly the batches of their flushes -/
 def Q.intact (q : Q) (s : Spec) : Bool := q.handled == s.handled
